@@ -377,6 +377,10 @@ def r5(chk, repo, L):
     rfd = io.func("read_file_descriptor")
     reads = [c for c in calls_in(rfd) if isinstance(c.func, ast.Attribute) and c.func.attr == "read"]
     k = reads[0].args[0].value if len(reads) == 1 and reads[0].args and isinstance(reads[0].args[0], ast.Constant) else None
+    if k is None and len(reads) == 1 and reads[0].args and norm(reads[0].args[0]).endswith("file_descriptor_record.sizeof()"):
+        k = dsize  # the struct's own size
+    if k is None:
+        raise AnalysisError(f"{io.relpath}:read_file_descriptor: the number of bytes read ({short(reads[0], 50) if reads else 'no read'}) is not a literal; not decided")
     chk.require(k == dsize, "C01-R5", f"{io.relpath}:read_file_descriptor", f"reads {k} bytes == static size of file_descriptor_record ({dsize})",
                 f"reads {k} bytes but file_descriptor_record is {dsize} bytes: the line records are parsed from shifted bytes", key="descriptor:read-size",
                 sample={"read": k, "struct": dsize})
@@ -477,37 +481,23 @@ def r6(chk, repo, L):
         chk.require(ok, "C01-R6", f"{io.relpath}:read_metadata", f"{what} = header[{f!r}]", f"{what} is not read from header[{f!r}]", key=f"read_metadata:{f}")
     # the count drives the chunk sizes, the length the read sizes
     nrec = [name for name, ent in rm.local_bindings().items() for k, v in ent if k == "assign" and isinstance(v, ast.Subscript) and const_str(v.slice) == "number_of_sar_data_records"]
-    cs_def = flow.single_def("chunksizes")
-    if cs_def is not None:
-        ok = bool(nrec) and nrec[0] in {x.id for x in ast.walk(flow.expand(cs_def)) if isinstance(x, ast.Name)} | {x.id for x in ast.walk(cs_def) if isinstance(x, ast.Name)}
-    else:
-        # no list of chunk sizes: the record count must bound the requests through the loop / comprehension that issues them
-        from ..dataflow import enclosing_iterations
-        exprs = []
-        for c in calls_in(rm):
-            if isinstance(c.func, ast.Attribute) and c.func.attr == "read" and c.args:
-                exprs.append(c.args[0])
-                exprs += [it for it, tgt in enclosing_iterations(c, rm.node) if it is not None]
-                exprs += [p_.test for p_ in __import__("vlib.core", fromlist=["parents"]).parents(c) if isinstance(p_, ast.While)]
-        if not exprs:
-            raise AnalysisError(f"{io.relpath}:read_metadata: no sized read in a loop or comprehension; dependence of the request sizes on the record count not decided")
-        # every local the requests (transitively) depend on
-        seen, todo = set(), [x.id for e in exprs for x in ast.walk(e) if isinstance(x, ast.Name)]
-        lb = rm.local_bindings()
-        while todo:
-            nm = todo.pop()
-            if nm in seen:
-                continue
-            seen.add(nm)
-            for kind, val in lb.get(nm, []):
-                v = val if isinstance(val, ast.AST) else (val[1] if kind == "unpack" else None)
-                if kind == "aug":
-                    v = val.value
-                if v is not None:
-                    todo += [x.id for x in ast.walk(v) if isinstance(x, ast.Name)]
-        ok = bool(nrec) and nrec[0] in seen
-        if not ok:
-            raise AnalysisError(f"{io.relpath}:read_metadata: the requests depend on {sorted(seen)[:8]}; dependence on the header's record count not decided")
+    # the sizes of the requests (and how many there are) must depend on the header's record count: dependence closure over the
+    # function (definitions, in-place updates, guarding tests and iterables) - an over-approximation, so absence is definite
+    from ..dataflow import dep_closure, enclosing_iterations
+    from ..core import parents as _parents
+    exprs = []
+    for c in calls_in(rm):
+        if isinstance(c.func, ast.Attribute) and c.func.attr in ("read", "readinto") and c.args and not any(isinstance(p_, ast.FunctionDef) and p_ is not rm.node for p_ in _parents(c)):
+            looped = [it for it, tgt in enclosing_iterations(c, rm.node) if it is not None] + [p_.test for p_ in _parents(c) if isinstance(p_, ast.While)] \
+                + [p_.iter for p_ in _parents(c) if isinstance(p_, ast.For)]
+            if looped:
+                exprs += [c.args[0]] + looped
+    if not exprs:
+        raise AnalysisError(f"{io.relpath}:read_metadata: no sized read in a loop or comprehension; dependence of the request sizes on the record count not decided")
+    seen = dep_closure(rm, exprs)
+    ok = bool(nrec) and nrec[0] in seen
+    if not nrec:
+        raise AnalysisError(f"{io.relpath}:read_metadata: the header's record count is not bound to a local; dependence of the requests on it not decided")
     chk.require(ok, "C01-R6", f"{io.relpath}:read_metadata", "chunk sizes are derived from the header's record count", "chunk sizes do not depend on the header's record count", key="read_metadata:chunksizes-from-count")
     # byte ranges
     tm = md.func("transform_metadata")
@@ -583,7 +573,15 @@ def r7(chk, repo):
     b2, _ = bind_args(resolve_callees(repo, gi, mcall.func)[0], mcall) if mcall is not None else ({}, None)
     chk.require(mcall is not None and norm(b2.get("chunk_offsets")) == "self.chunk_offsets" and norm(Flow(gi).expand(b2.get("selected"))) == norm(Flow(gi).expand(gcall)),
                 "C01-R7", f"{am.relpath}:Array.__getitem__", "grouped rows are joined with self.chunk_offsets", "grouped rows are not joined with self.chunk_offsets", key="getitem:merge")
-    # grouping key is row // chunksize on the enumerate index; partition_all(chunks) keys by enumerate
+    # grouping key is row // chunksize on the enumerate index; partition_all(chunks) keys by enumerate.  The written form is
+    # recognised when it is the pinned idiom; any other form is decided against the helper's specification on representatives
+    def by_spec(fi, name, good, bad, key):
+        try:
+            res = decide_on_representatives(repo, fi, name)
+        except AnalysisError as e:
+            raise AnalysisError(f"{am.relpath}:{name}: not the recognised form and not decidable on representatives: {e}")
+        chk.require(res[0], "C01-R7", f"{am.relpath}:{name}", f"{good} (agrees with its specification on {res[1]} representatives)", f"{bad}: {res[1]}", key=key)
+
     gc = am.func("groupby_chunks")
     keyfun = None
     for c in calls_in(gc):
@@ -591,7 +589,10 @@ def r7(chk, repo):
             keyfun = c.args[0]
     ok = isinstance(keyfun, ast.Lambda) and isinstance(keyfun.body, ast.BinOp) and isinstance(keyfun.body.op, ast.FloorDiv) and norm(keyfun.body.right) == gc.positional_params[1] \
         and norm(keyfun.body.left) == f"{keyfun.args.args[0].arg}[0]"
-    chk.require(ok, "C01-R7", f"{am.relpath}:groupby_chunks", "grouping key = row index // chunksize", f"grouping key is {short(keyfun, 60) if keyfun is not None else None}", key="groupby_chunks:key")
+    if ok:
+        chk.ok("C01-R7", f"{am.relpath}:groupby_chunks", "grouping key = row index // chunksize")
+    else:
+        by_spec(gc, "groupby_chunks", "rows are grouped by row index // chunksize", "rows are not grouped by row index // chunksize", "groupby_chunks:key")
     cr = am.func("compute_chunk_ranges")
     ret = single_return(cr)
     ok = False
@@ -600,8 +601,11 @@ def r7(chk, repo):
         it = Flow(cr).expand(g.iter)
         ok = isinstance(it, ast.Call) and norm(it.func) == "enumerate" and isinstance(it.args[0], ast.Call) and norm(it.args[0].func) == "partition_all" \
             and [norm(a) for a in it.args[0].args] == [cr.positional_params[1], cr.positional_params[0]] and isinstance(g.target, ast.Tuple) and norm(ret.key) == norm(g.target.elts[0])
-    chk.require(ok, "C01-R7", f"{am.relpath}:compute_chunk_ranges", "offsets table key = index of partition_all(chunks, byte_ranges)",
-                f"offsets table is keyed by {short(ret, 80) if ret is not None else None}", key="compute_chunk_ranges:key")
+    if ok:
+        chk.ok("C01-R7", f"{am.relpath}:compute_chunk_ranges", "offsets table key = index of partition_all(chunks, byte_ranges)")
+    else:
+        by_spec(cr, "compute_chunk_ranges", "the offsets table is keyed by the index of consecutive groups of `chunks` rows",
+                "the offsets table is not keyed by the index of consecutive groups of `chunks` rows", "compute_chunk_ranges:key")
     # selected rows carry their absolute row index: decided with the specification of compute_selected_ranges
     sr = am.func("compute_selected_ranges")
     try:
@@ -645,7 +649,8 @@ def r8(chk, repo):
     cr = am.func("compute_chunk_ranges")
     ret = single_return(cr)
     if not (isinstance(ret, ast.DictComp) and isinstance(ret.value, ast.Tuple) and len(ret.value.elts) == 2):
-        chk.fail("C01-R8", f"{am.relpath}:compute_chunk_ranges", f"chunk span is {short(ret, 80) if ret is not None else None}, expected a (lower, upper) pair per chunk", key="span:pair")
+        # another way of writing it: the comparison with the specification above has decided the spans
+        chk.note(f"{am.relpath}:compute_chunk_ranges is not a dict comprehension of (lower, upper) pairs; its spans were decided against the specification only")
         return
     lo, hi = ret.value.elts
 
